@@ -16,7 +16,8 @@ PROPERTY = "C16"
 RULE = ("exhaustive: 1-4 labels on 0..12 (repeats allowed) x resolution {1,2,3,5} x start {-4,-1,0,1,3,6} x end "
         "{None,-2,0,2,5,8,12,15} x blur 0..2; all bit vectors of length<=10 x radius 0..4; Hypothesis: sorted label lists "
         "(ints / one-decimal floats) up to 2e6 bp, resolutions 1..5000, negative starts, ends before the last label; random "
-        "peak-height arrays per correlation with noise levels and peaksCount.  non-trivial = window start not on the first "
+        "peak-height arrays per correlation with noise levels and peaksCount; peaks-scale: 40-520 correlations (up to ~3000 candidate seeds) "
+        "with scores from a small pool.  non-trivial = window start not on the first "
         "label, or >=2 labels in one bin, or a tie at the peaksCount cut; distinct = distinct case")
 ASSUMPTIONS = ["label lists are non-empty and sorted ascending", "resolution is an int >= 1, blur radius an int >= 0",
                "bin centre: |value - (binStart + (res-1)/2)| <= 0.5 (either rounding of a half-integer centre accepted)",
@@ -260,6 +261,27 @@ def peaks_case(draw):
     return {"count": count, "res": res, "corrs": corrs}
 
 
+@st.composite
+def peaks_scale_case(draw):
+    """hundreds of correlations (fragmented references x two strands), i.e. more candidate seeds than a byte counts, with
+    heights from a small pool so that the cut falls inside a run of exactly equal scores; the lists are arithmetic in a few
+    drawn numbers"""
+    count = draw(st.integers(1, 8))
+    ncorr = draw(st.sampled_from([40, 90, 129, 257, 300, 520]))
+    npk = draw(st.integers(1, 6))
+    pool = draw(st.sampled_from([[1.0, 2.0, 3.0], [0.5, 0.75, 0.8, 0.9, 1.0], [k / 64 for k in range(1, 400)]]))
+    a, b, c = draw(st.integers(1, 97)), draw(st.integers(0, 97)), draw(st.integers(0, 97))
+    noise = draw(st.sampled_from([0.0, 0.25, 0.125]))
+    top = draw(st.integers(0, 3))          # a few clear winners above the pool, so the cut falls among the tied rest
+    corrs = []
+    for k in range(ncorr):
+        hs = [pool[(a * k + b * j + c) % len(pool)] for j in range(npk)]
+        if k < top:
+            hs[0] = 10.0 + k
+        corrs.append({"heights": hs, "pos": [100 * j + (k % 50) for j in range(npk)], "start": 0, "noise": noise})
+    return {"count": count, "res": draw(st.sampled_from([1, 100])), "corrs": corrs}
+
+
 def subchecks(tier):
     q = tier == "quick"
     subs = [
@@ -274,6 +296,9 @@ def subchecks(tier):
         Sub("bin-centre", "hyp", check_centre, strategy=centre_case, examples=6000 if q else 200000, shrink_budget=800),
         Sub("peaks", "hyp", check_peaks, strategy=peaks_case, examples=8000 if q else 300000, shrink_budget=800,
             required_classes=("tie-at-cut",)),
+        Sub("peaks-scale", "hyp", check_peaks, strategy=peaks_scale_case, examples=320 if q else 8000, shrink_budget=60,
+            describe="40-520 correlations of 1-6 peaks (up to ~3000 candidate seeds), scores from a small pool: ties at the cut",
+            required_classes=("tie-at-cut",), sample_filter=lambda c: {"count": c["count"], "res": c["res"], "correlations": len(c["corrs"]), "first_two": c["corrs"][:2]}),
     ]
     if not q:
         subs.append(fuzz_variant(next(s for s in subs if s.name == "vectorise-random"), 40000))
